@@ -4,20 +4,31 @@
 #define TETL_VARIANT_VARIANT_ALTERNATIVE_SELECTOR_HPP
 
 #include <etl/_type_traits/declval.hpp>
+#include <etl/_utility/forward.hpp>
 #include <etl/_variant/overload.hpp>
 
 namespace etl::detail {
 
 template <typename T>
+struct variant_alternative_array {
+    T x[1];
+};
+
+/// An alternative T is only a candidate for a source type U if `T x[] = {etl::forward<U>(u)};`
+/// is well-formed, i.e. the conversion is not narrowing (P0608R3).
+template <typename T>
 struct variant_alternative_selector_single {
-    auto operator()(T /*t*/) const -> T;
+    template <typename U>
+        requires requires(U&& u) { variant_alternative_array<T>{{etl::forward<U>(u)}}; }
+    auto operator()(T /*t*/, U&& /*u*/) const -> T;
 };
 
 template <typename... Ts>
 inline constexpr auto variant_alternative_selector = etl::overload{variant_alternative_selector_single<Ts>{}...};
 
 template <typename T, typename... Ts>
-using variant_alternative_selector_t = decltype(variant_alternative_selector<Ts...>(etl::declval<T>()));
+using variant_alternative_selector_t
+    = decltype(variant_alternative_selector<Ts...>(etl::declval<T>(), etl::declval<T>()));
 
 } // namespace etl::detail
 
